@@ -24,6 +24,7 @@ PROPS = {
         ],
     },
     'C06': {
+        'native': ['c06_'],
         'units': ['script_custom'],
         'kani_quick': ['custom_read_uint_1', 'custom_read_uint_2', 'custom_read_uint_4', 'opcode_class_table', 'opcode_constants', 'types_coin_parameter_table'],
         'kani_thorough': [],
@@ -116,6 +117,7 @@ PROPS = {
         ],
     },
     'C05': {
+        'native': ['c05_'],
         'units': ['script_btc'],
         'kani_quick': ['btc_predicates_match_templates', 'btc_is_p2pk_matches_template', 'btc_from_script_decision', 'btc_is_provable_unspendable_first_byte', 'opcode_class_table'],
         'kani_thorough': [],
@@ -127,6 +129,7 @@ PROPS = {
         ],
     },
     'C16': {
+        'native': ['c05_', 'c06_'],
         'units': ['script_btc', 'script_custom'],
         'kani_quick': [],
         'kani_thorough': [],
@@ -137,6 +140,7 @@ PROPS = {
         ],
     },
     'C14': {
+        'native': ['c05_', 'c06_'],
         'units': ['script_btc', 'script_custom', 'reader'],
         'kani_quick': ['btc_is_provable_unspendable_first_byte', 'opcode_class_table', 'custom_read_uint_1', 'custom_read_uint_2', 'custom_read_uint_4'],
         'kani_thorough': [],
